@@ -15,6 +15,7 @@ S10 either check_or_constrain_* never re-types identifiers / elements / fields, 
 S8  cross-reference: array outputs are decoded with the element count of the type (C09-L7)
 S11 cross-reference: resolved const definitions are visible to later ones (C12-K6)
 S13 the one-node re-typers check_or_constrain_* are only the leaf case of constrain_type (operands of an untyped compound expression are re-typed too)
+S14 inside a collection an unspecified number type is only re-typed in place to a number type of the same (32-bit) width
 S12 the number type stored in a Range node (which the lowering sizes the elements with) follows the re-typing of the range
 """
 from .. import mir
@@ -556,5 +557,59 @@ def rule_s13(ctx):
     return res
 
 
+SAME_WIDTH = {"token::UnsignedNumType": {"U32", "Usize"}, "token::SignedNumType": {"I32"}}
+
+
+def rule_s14(ctx):
+    """Re-typing in place does not touch the wires.  A number inside a collection that a variable, element or field holds keeps the
+    32 wires of an unspecified number (the lowering only adjusts the width of a value that is a number itself, S10), so inside a
+    collection an unspecified number type may only become a number type of 32 bits."""
+    res = RuleResult("S14", "inside a collection an unspecified number type is only re-typed in place to a number type of the same width")
+    fs = [f for f in ctx.fns.values() if f.get("mir") and f["id"].startswith("check::constrain_type::") and "overwrite" in f["id"]]
+    if len(fs) != 1:
+        raise AnchorMissing("S14: the in-place re-typer of constrain_type was not found (%r)" % [f["id"] for f in fs])
+    body = ctx.body(fs[0]["id"])
+    flags = [l for l in range(1, body.arg_count + 1) if body.locals[l]["ty"] == "bool"]
+    writes = [b for b, blk in enumerate(body.blocks) if not blk["cleanup"] for st in blk["stmts"]
+              if st["k"] == "assign" and st["place"]["l"] == 1 and st["place"]["p"] and st["place"]["p"][0]["k"] == "deref" and len(st["place"]["p"]) == 1]
+    if not writes:
+        raise AnchorMissing("S14: the re-typer never writes the type")
+    if len(flags) != 1:
+        res.bad(Finding("S14", body.id, "no distinction between a number and a number inside a collection",
+                        "the in-place re-typer overwrites unspecified number types at any depth of the type: `let t = (1, 2); let u: (u8, i64) = t;` gives u a type of 72 bits "
+                        "over the 64 wires of t", body.fn["sp"]))
+        return res
+    flag = flags[0]
+    good = set()
+    for b in range(body.n):
+        info = body.switch_info(b)
+        if info and info[2] in SAME_WIDTH:
+            t = body.term(b)
+            for v, x in t["targets"]:
+                if info[1].get(v) in SAME_WIDTH[info[2]]:
+                    good.add((b, x))
+    for wb in writes:
+        w = mir.bool_consistent_path(body, 0, [wb], env={flag: True}, blocked_edges=good)
+        if w:
+            res.bad(Finding("S14", body.id, "number type of another width taken on inside a collection",
+                            "with the in-collection flag set a path reaches the overwrite of the type without having found the expected number type to be u32 / usize / i32",
+                            body.blocks[wb]["stmts"][-1]["sp"] if body.blocks[wb]["stmts"] else body.fn["sp"], witness=["bb%d" % x for x in w[-10:]]))
+        else:
+            res.ok({"write": "bb%d" % wb, "verdict": "inside a collection only reached for u32 / usize / i32"})
+    # the recursion into element types sets the flag
+    n = 0
+    for b, t in body.calls():
+        if mir.callee(t) == body.id:
+            n += 1
+            a = t["args"][flag - 1]
+            if a["k"] == "const" and a.get("val") == 1:
+                res.ok({"recursion": "line %d" % t["sp"][1], "verdict": "element types are re-typed with the in-collection flag set"})
+            else:
+                res.bad(Finding("S14", body.id, "recursion into element types without the in-collection flag", "the element types of an array / tuple type are re-typed as if they were numbers of their own", t["sp"]))
+    if n < 2 and not res.findings:
+        raise AnchorMissing("S14: expected the recursion into array and tuple element types, found %d" % n)
+    return res
+
+
 def run(ctx):
-    return ctx.run_rules([rule_s1, rule_s2, rule_s3, rule_s4, rule_s5, rule_s6, rule_s7, rule_s8, rule_s9, rule_s10, rule_s11, rule_s12, rule_s13])
+    return ctx.run_rules([rule_s1, rule_s2, rule_s3, rule_s4, rule_s5, rule_s6, rule_s7, rule_s8, rule_s9, rule_s10, rule_s11, rule_s12, rule_s13, rule_s14])
